@@ -317,7 +317,7 @@ func encryptSide(run *vk.Run, w *world.World, tier string) {
 	if tier == "thorough" {
 		maxR = 4
 	}
-	cases := coregen.Generate(run, "scrypt-lists", coregen.Cfg("roundtrip", []string{"x1", "e1", "s1", "s2"}, maxR, 1, "LabelSetsNone", "ScryptAloneEnc LabelRule Emit"))
+	cases := coregen.Generate(run, "scrypt-lists", coregen.Cfg("scryptlists", []string{"x1", "e1", "s1", "s2"}, maxR, 1, "LabelSetsNone", "ScryptAloneEnc LabelRule Emit"))
 	seen := map[string]bool{}
 	n := 0
 	for i := range cases {
